@@ -111,6 +111,16 @@ func genC12() *rapid.Generator[*Spec] {
 			used[name] = true
 			fields = append(fields, SField{Name: name, T: ftypes[i], Tag: x.pick(c12Tags, "tag"), Embedded: emb})
 		}
+		// sometimes a field that is never injected shares its type with a later
+		// field that is: prevented by its tag (so that "*" skips it) and never
+		// named; the model treats it like any other field
+		twinName := ""
+		if x.pct(30, "twinfield") {
+			k := x.intn(0, len(fields)-1, "twinof")
+			twinName = fmt.Sprintf("Twin%d", k)
+			tw := SField{Name: twinName, T: fields[k].T, Tag: x.pick([]string{`wire:"-"`, `json:"t" wire:"-"`}, "twintag")}
+			fields = append(fields[:k], append([]SField{tw}, fields[k:]...)...)
+		}
 		s.Decls = append(s.Decls, Decl{Pkg: spkg, Name: "S", Form: "struct", Fields: fields})
 		S := Named(len(s.Decls) - 1)
 		// providers for every field type, kept in a nested set so that unselected ones are not "unused"
@@ -139,6 +149,9 @@ func genC12() *rapid.Generator[*Spec] {
 			}
 			var names []string
 			for _, f := range fields {
+				if f.Name == twinName {
+					continue
+				}
 				if mode == "all" || x.pct(55, "sel") {
 					names = append(names, f.Name)
 				}
@@ -164,7 +177,7 @@ func genC12() *rapid.Generator[*Spec] {
 		}
 		in := Injector{Name: "Inject", File: 0, Cleanup: true, Err: true, Panic: x.pct(50, "panicform")}
 		form := x.pick([]string{"struct", "struct", "fields", "fields", "fields"}, "form")
-		note := ""
+		note, note2 := "", ""
 		if form == "struct" {
 			it := Item{Kind: "struct", Out: S}
 			if x.pct(30, "star") {
@@ -251,6 +264,17 @@ func genC12() *rapid.Generator[*Spec] {
 					in.Args = append(in.Args, RItem(addItem(s, Item{Kind: "func", Pkg: spkg, Name: "ProvideS", Out: par})))
 				}
 			}
+			// the other form of the struct (S for a *S parent, *S for an S parent)
+			// comes from an unrelated injector argument: fields must still be read
+			// from the designated parent
+			if parKind != "PS" && parKind != "PS-from-*S" && psrc != "struct" && x.pct(25, "otherformarg") {
+				other := Ptr(S)
+				if ptrParent {
+					other = S
+				}
+				in.Params = append(in.Params, Param{Name: "otherform", T: other})
+				note2 = " otherform-arg"
+			}
 			// consumer: parent (sometimes), each listed field by value, pointer, or both, in drawn order
 			var ps []*Type
 			if x.pct(70, "consumeparent") {
@@ -305,7 +329,7 @@ func genC12() *rapid.Generator[*Spec] {
 			ci := addItem(s, Item{Kind: "func", Pkg: 0, Name: "Collect", Params: uniq, Out: r})
 			in.Args = append(in.Args, RItem(ci))
 			in.Out = r
-			note = fmt.Sprintf("fields names-%s parent=%s ptr=%v", mode, psrc, ptrParent)
+			note = fmt.Sprintf("fields names-%s parent=%s ptr=%v", mode, psrc, ptrParent) + note2
 			if strings.HasPrefix(parKind, "PS") {
 				note += " kind=" + parKind
 			}
